@@ -149,6 +149,8 @@ type spec struct {
 	PKJWT   bool        `json:"cfg_auth_method_private_key_jwt"`
 	Refresh bool        `json:"cfg_grant_type_refresh_token"`
 	Naive   bool        `json:"storage_compares_secrets_naively"` // AuthorizeClientIDSecret is a plain comparison (a client without secret matches "")
+	Dyn     bool        `json:"cfg_issuer_from_host"`   // the provider derives its issuer from the request's Host
+	HostB   bool        `json:"request_to_second_host"` // with Dyn: the request goes to the provider's second host name
 	PermSub bool        `json:"cfg_permissive_subject_check"` // the application's provider overrides JWTProfileVerifier with op.SubjectCheck(allow all)
 	Caps    vstore.Caps `json:"-"`
 	CapsStr string      `json:"storage_caps"`
@@ -169,6 +171,11 @@ type spec struct {
 	OtherKid   bool `json:"other_kid"`
 	RevokeKind int  `json:"revoke_kind"`
 	SubjJWT    bool `json:"subject_token_is_jwt"`
+
+	// one request in six also meets a failing storage: the FaultAt-th storage call of the request answers an injected
+	// error. A request that must be refused must be refused all the same (and nothing may be done for the client).
+	FaultAt   int `json:"storage_fault_at_call,omitempty"`
+	FaultKind int `json:"storage_fault_kind,omitempty"`
 
 	// where the parameters sit: form body and / or URL query
 	GTPlace    int    `json:"-"` // grant_type
@@ -223,7 +230,7 @@ func (s *spec) badGrant(o int) string {
 }
 
 func (s *spec) cfgKey() string {
-	return fmt.Sprintf("post=%v,pkjwt=%v,refresh=%v,permsub=%v,naive=%v,caps=%s", s.Post, s.PKJWT, s.Refresh, s.PermSub, s.Naive, s.Caps)
+	return fmt.Sprintf("post=%v,pkjwt=%v,refresh=%v,permsub=%v,naive=%v,dyn=%v,caps=%s", s.Post, s.PKJWT, s.Refresh, s.PermSub, s.Naive, s.Dyn, s.Caps)
 }
 
 // grantDisabled: the provider configuration / storage capability set does not offer the grant.
@@ -347,10 +354,21 @@ func buildSpec(r *rand.Rand, idx int) *spec {
 	s.CredPlace = []int{placeBody, placeBody, placeBody, placeQuery, placeBoth, placeDifferent}[r.IntN(6)]
 	s.ParamPlace = []int{placeBody, placeBody, placeBody, placeQuery, placeBoth}[r.IntN(5)]
 	s.GTPlaceStr, s.CredStr, s.ParamStr = gtPlaceNames[s.GTPlace], placeNames[s.CredPlace], placeNames[s.ParamPlace]
+	if r.IntN(6) == 0 {
+		s.FaultAt, s.FaultKind = 1+r.IntN(5), r.IntN(int(vstore.NumFaultKinds))
+	}
 	// a storage that compares secrets naively only matters where no (or an empty) secret is presented
 	switch s.Pres {
 	case pNone, pIDOnly, pBasicEmptySecret, pAssertTypeOnly, pAssertNoType:
 		s.Naive = r.IntN(2) == 0
+	}
+	// a host-derived issuer only matters to assertions (their audience must be the issuer of THIS request); cases of one
+	// world alternate between its two host names, so whatever the provider memoises per issuer is exercised both ways
+	switch s.Pres {
+	case pAssertValid, pAssertValidWithID, pAssertWrongAud, pAssertOtherKey, pAssertExpired, pOwnAssertOtherID, pMixedAssert:
+		if r.IntN(3) == 0 {
+			s.Dyn, s.HostB = true, r.IntN(2) == 0
+		}
 	}
 	// a permissive subject check only matters to assertions: concentrate it on the assertion presentations
 	switch s.Pres {
